@@ -171,3 +171,26 @@ Fixpoint determined_b (rs : list (config * dot)) : bool :=
   | cd :: r => forallb (fun cd' => negb (config_eqb (fst cd') (fst cd)) || dot_peqb (snd cd) (snd cd')) r &&
                determined_b r
   end.
+
+(* ---- renderers do not interfere (seeded round 5) ----
+   Written without heap or addresses: every renderer has its OWN options - those it was created with (the default
+   options when it was created without a configuration), changed only by the steps that name THIS renderer; a drawing
+   made by renderer r is the drawing of the HUGR under r's own options at that time. *)
+Definition own_step (dflt : config) (own : list config) (o : hop) : list config :=
+  match o with
+  | HNew (Some c) => own ++ [c]
+  | HNew None => own ++ [dflt]
+  | HSetQual r b => upd r (set_qual b) own
+  | HSetPal r p => upd r (set_pal p) own
+  | HDraw _ => own
+  end.
+Definition own_draw (t : htree) (ls : list link) (own : list config) (o : hop) : list dot :=
+  match o with
+  | HDraw r => match nth_error own r with Some c => [render c t ls] | None => [] end
+  | _ => []
+  end.
+Fixpoint own_draws (dflt : config) (t : htree) (ls : list link) (own : list config) (h : list hop) : list dot :=
+  match h with
+  | [] => []
+  | o :: r => own_draw t ls own o ++ own_draws dflt t ls (own_step dflt own o) r
+  end.
